@@ -186,6 +186,8 @@ def evaluate__div_operator(self: XPathToken, context: ta.ContextType = None) \
         except ValueError as err:
             raise self.error('FOCA0005', err) from None
         except OverflowError as err:
+            if isinstance(dividend, Duration):
+                raise self.error('FODT0002', err) from None  # as the '*' operator does
             raise self.error('FOAR0002', err) from None
         except (ZeroDivisionError, decimal.DivisionByZero):
             raise self.error('FOAR0001') from None
